@@ -16,13 +16,35 @@
      - a one-shot done callback run a second time, or one that was never created.
    [tr] records, per step, what the step did.
 
-   Tags.  [c_tag] is the identity of one CallMethod invocation, i.e. of the closure object the
-   caller passed.  [NoDup (fetch_tags ls)] says that no closure object is passed twice
-   (google::protobuf::Closure made by NewCallback is one-shot); it is the only further caller-side
-   hypothesis. *)
+   Tags.  [c_tag] is the identity of one CallMethod invocation: ONE tag stands for the closure object
+   AND for the response object the caller passed (C19_Model.v: [ERun (c_tag c)] is done->Run(),
+   [EDelete (c_tag c)] is the delete of the response).  [NoDup (fetch_tags ls)] therefore carries the
+   whole caller obligation, the only further caller-side hypothesis:
+     - no closure object is passed to two calls (google::protobuf::Closure made by NewCallback is
+       one-shot), AND
+     - every call passes its OWN heap-allocated response object, whose ownership passes to the channel
+       until the call completes (`std::unique_ptr<Message> d(out.response)` RpcChannel.cc:105,
+       `delete out.response` in ~RpcChannel :40).  Two calls with distinct closures that share one
+       response object are NOT expressible in the model (they would need two tags for one object);
+       the real code would delete that object twice.  The harness always allocates a fresh response
+       per call.  This is muduo's own contract: protobuf's generic RpcChannel::CallMethod leaves the
+       response object with the caller (the opposite ownership).
+   Every "response object deleted once / at most once" below is a statement about response objects
+   under this obligation.
+
+   Sizes.  The system theorems come in two layers.  C19_end_to_end / C19_bidirectional are about the
+   FIFO-of-frames model of C19_Sys (a frame written by one channel reaches the other as the label that
+   serialising and parsing the RpcMessage yields), with fields below 2 GiB (protobuf's limit).  The
+   codec that carries the frames (RpcCodec = ProtobufCodecLite, C18) rejects frames above
+   kMaxMessageLen = 64 MiB: C19_end_to_end_over_codec / C19_bidirectional_over_codec assume every frame
+   of the history within kMaxMessageLen ([sys_fits] / [bsys_fits], sizes by C19_frame_sizes) and add
+   that the FIFO of frames is then exactly what C18's decoder delivers from the byte stream.  The band
+   64 MiB .. 2 GiB is NOT covered by any theorem about bytes: there the sender does not check the size
+   (fillEmptyBuffer, ProtobufCodecLite.cc:42-56) and the real receiver reports kInvalidLength and
+   shuts the connection down (:65-68); onRpcMessage is never called. *)
 From Coq Require Import List ZArith Bool Arith Lia.
 From Coq.Strings Require Import Byte.
-From Muduo Require Import Base_Bytes Gen_C19 C19_Model C19_Proofs C19_DownProofs C19_GenLink C19_Wire C19_WireProofs C19_Sys C19_SysProofs C19_BiProofs C19_Codec.
+From Muduo Require Import Base_Bytes Gen_C19 C19_Model C19_Proofs C19_DownProofs C19_GenLink C19_Wire C19_WireProofs C19_Sys C19_SysProofs C19_BiProofs C19_Codec C19_CodecSys.
 From Muduo Require C18_Model C18_Proofs C18_RpcInstance.   (* read-only, qualified: C18's codec *)
 Import ListNotations.
 Local Open Scope Z_scope.
@@ -84,7 +106,10 @@ Theorem C19_closure_at_most_once :
 Proof. exact closure_at_most_once. Qed.
 Print Assumptions C19_closure_at_most_once.
 
-(* ... and no response object is deleted twice. *)
+(* ... and no response object is deleted twice.  (One tag = the closure AND the response object of one
+   call: the statement is about response objects provided every call passes its own heap-allocated
+   response, owned by the channel until completion -- RpcChannel.cc:105, :40; see "Tags" above.  A
+   response object shared by two calls with distinct closures is outside the model.) *)
 Theorem C19_response_deleted_at_most_once :
   forall svcs ls s' tr c,
     exec (init svcs) ls = Some (s', tr) ->
@@ -110,7 +135,9 @@ Print Assumptions C19_closure_gets_own_id.
 
 (* If a response with c's id is delivered after c was registered, c's closure has run exactly
    once -- or never, when the caller passed no closure (done == NULL) -- and c's response object
-   has been deleted exactly once.  Full strength: no hypothesis on c beyond being registered. *)
+   has been deleted exactly once.  Full strength: no hypothesis on c beyond being registered.
+   ("its response object": each call passes its own, see "Tags" above -- the caller obligation that
+   [NoDup (fetch_tags ..)] stands for covers the response objects as well as the closures.) *)
 Theorem C19_once_if_answered :
   forall svcs l1 l2 s1 tr1 s' tr i c,
     exec (init svcs) l1 = Some (s1, tr1) ->
@@ -290,15 +317,22 @@ Print Assumptions C19_frames_arrive.
    micro-steps on any number of client threads (SCall), REQUEST frames reaching the server (SReq),
    the service completing deferred requests in any order (SDone), RESPONSE frames reaching the
    client (SResp); every frame really goes through RpcMessage serialisation and parsing
-   (arrives_as).  Hypotheses: the user's message type round-trips, fields are below 2 GiB
-   (sys_wf), closure objects are not reused, fewer than 2^63 calls.
+   (arrives_as).  This is a theorem about the FIFO-OF-FRAMES model: the queues hold frames, not
+   bytes, and a frame of any size below 2 GiB is delivered.  The byte-level bridge through RpcCodec
+   needs every frame within kMaxMessageLen (64 MiB): C19_end_to_end_over_codec below.  A history
+   with a frame in the band 64 MiB .. 2 GiB satisfies the hypotheses here, but in the real pair the
+   receiver's codec reports kInvalidLength and shuts the connection down (ProtobufCodecLite.cc:65-68;
+   the sender does not check: fillEmptyBuffer :42-56): that band is NOT covered.
+   Hypotheses: the user's message type round-trips, fields are below 2 GiB (sys_wf), closure objects
+   AND response objects are not reused (one tag = both, see "Tags" above), fewer than 2^63 calls.
      - a closure that runs has been given the reply that the service made, through the done
        callback it was handed for exactly this call's (id, service, method, request), or it sees
        nothing because the server answered this very request with an error code;
      - no closure runs twice;
      - when nothing is in flight any more (queues empty, every dispatched request completed,
        every CallMethod returned) every call made has completed exactly once: its closure ran
-       once (never if it has none) and its response object was deleted once. *)
+       once (never if it has none) and its response object was deleted once (every call passing
+       its own heap-allocated response object, owned by the channel until completion). *)
 Theorem C19_end_to_end :
   forall (wire_of : bytes -> bytes) (content_of : bytes -> payload),
     (forall m, content_of (wire_of m) = Valid m) ->
@@ -326,7 +360,9 @@ Print Assumptions C19_end_to_end.
    no closure runs twice; and when both connections are up and nothing is under way or pending,
    every call made at w has completed exactly once.  (Proof: the calls made at w and served at the
    other end form a history of the one-directional system -- sub_labels -- once the other direction,
-   the DOWN labels and what a dead connection swallowed are taken out: C19_end_to_end applies.) *)
+   the DOWN labels and what a dead connection swallowed are taken out: C19_end_to_end applies.)
+   Like C19_end_to_end this is about the FIFO-of-frames model with fields below 2 GiB (bsys_wf); over
+   the codec's bytes, with every frame within kMaxMessageLen: C19_bidirectional_over_codec. *)
 Theorem C19_bidirectional :
   forall (wire_of : bytes -> bytes) (content_of : bytes -> payload),
     (forall m, content_of (wire_of m) = Valid m) ->
@@ -382,8 +418,10 @@ Print Assumptions C19_system_down.
    bytes of C19_Wire, Adler-32 (C18_Model.encode_msg) -- written one after the other and delivered to
    the peer in ANY segmentation are decoded by the peer's RpcCodec into exactly the labels the peer's
    channel should take, in order; everything is consumed, no error, the stream is not abandoned.
-   ([frame_ok]: 64-bit id, fields below 2 GiB, the frame within kMaxMessageLen.)  This is what makes
-   the FIFO of frames of C19_Sys sound over a byte stream. *)
+   ([frame_ok]: 64-bit id, fields below 2 GiB, the frame within kMaxMessageLen.)  Together with
+   C19_end_to_end_over_codec / C19_bidirectional_over_codec (every frame of a history whose calls and
+   replies are within kMaxMessageLen is [frame_ok]) this is what makes the FIFO of frames of C19_Sys
+   sound over a byte stream -- for frames up to 64 MiB, not beyond. *)
 Theorem C19_frames_arrive_over_bytes :
   forall (wire_of : bytes -> bytes) (content_of : bytes -> payload),
     (forall m, content_of (wire_of m) = Valid m) ->
@@ -406,8 +444,112 @@ Theorem C19_delivered_is_initial_segment :
 Proof. exact delivered_is_initial_segment. Qed.
 Print Assumptions C19_delivered_is_initial_segment.
 
+(* ---- the system histories over the codec's bytes (C19_CodecSys) ----
+   Sizes.  [request_frame_len svc meth rq] / [reply_frame_len rs] = the value of the length field of
+   the frame RpcCodec writes for a REQUEST / a RESPONSE: 4 (tag) + RpcMessage bytes + 4 (checksum),
+   the RpcMessage bytes being 11 (type key + enum, id key + fixed64) + per field 1 (key) + the varint
+   of its length + its bytes.  C18's [fits] for the three kinds of message a channel writes, exactly;
+   the id does not matter; an error reply always fits; the plain sufficient condition
+   |service| + |method| + |request| + 37 <= kMaxMessageLen, |response| + 25 <= kMaxMessageLen
+   (kMaxMessageLen is the constant regenerated from ProtobufCodecLite.h, 64 MiB today); and the
+   codec's bound implies the 2 GiB bound of the frame-level theorems. *)
+Theorem C19_frame_sizes :
+  (forall i svc meth rq,
+     C18_Proofs.fits C18_RpcInstance.rpctag (wire_ser (mkMsg MT_REQUEST i (Some svc) (Some meth) (Some rq) None None)) <->
+     request_frame_len svc meth rq <= C18_Model.kMaxMessageLen) /\
+  (forall i rs,
+     C18_Proofs.fits C18_RpcInstance.rpctag (wire_ser (mkMsg MT_RESPONSE i None None None (Some rs) None)) <->
+     reply_frame_len rs <= C18_Model.kMaxMessageLen) /\
+  (forall i e, C18_Proofs.fits C18_RpcInstance.rpctag (wire_ser (mkMsg MT_RESPONSE i None None None None (Some e)))) /\
+  (forall svc meth rq,
+     Z.of_nat (length svc) + Z.of_nat (length meth) + Z.of_nat (length rq) + 37 <= C18_Model.kMaxMessageLen ->
+     request_frame_len svc meth rq <= C18_Model.kMaxMessageLen) /\
+  (forall rs, Z.of_nat (length rs) + 25 <= C18_Model.kMaxMessageLen -> reply_frame_len rs <= C18_Model.kMaxMessageLen) /\
+  (forall wire_of ls, sys_fits wire_of ls -> sys_wf wire_of ls) /\
+  (forall wire_of ls, bsys_fits wire_of ls -> bsys_wf wire_of ls).
+Proof. exact frame_sizes. Qed.
+Print Assumptions C19_frame_sizes.
+
+(* C19_end_to_end over the codec.  Hypothesis [sys_fits]: every call's REQUEST frame and every reply's
+   RESPONSE frame of the history is within kMaxMessageLen (label by label: [label_fits]; it replaces
+   and implies [sys_wf]).  Conclusion: (i)-(iii) of C19_end_to_end, and
+     (iv) every frame either channel ever handed to its codec in this history ([sent_c] / [sent_s]:
+          the ESendRequest / ESendResponse events of the client / the server, in order) is [frame_ok],
+          i.e. C19_frames_arrive_over_bytes applies to all of them and to every queue content;
+     (v)  the abstract delivery of the model IS the codec's delivery: whatever the segmentation of
+          the bytes the client's RpcCodec wrote for [sent_c tr], C18's decoder delivers them without
+          error, one message per frame, and the labels the server's channel took at its SReq steps
+          ([taken_s]) are exactly the first k of them, in order, the frames still queued ([c2s y]) the
+          rest; likewise from server to client ([sent_s], [taken_c], [s2c y]).
+   So SReq / SResp ("the oldest frame reaches the peer's onRpcMessage as [arrives_as]") is what
+   ProtobufCodecLite::onMessage does with TCP's byte stream, for frames up to kMaxMessageLen. *)
+Theorem C19_end_to_end_over_codec :
+  forall (wire_of : bytes -> bytes) (content_of : bytes -> payload),
+    (forall m, content_of (wire_of m) = Valid m) ->
+    forall svcs ls y tr,
+      sys_exec wire_of content_of (sys_init svcs) ls = Some (y, tr) ->
+      sys_fits wire_of ls -> NoDup (sfetch_tags ls) -> next_id (cl y) < 9223372036854775808 ->
+      ((forall l st ev tg sn, In (l, st) tr -> ss_cl st = Some ev -> In (ERun tg sn) (snd ev) ->
+          exists t t' c i, In (SCall (LFetch t c)) ls /\ c_tag c = tg /\ In (EFetch t' i tg) (events (cproj tr)) /\
+            ((exists k m, sn = Parsed m /\ In (SDone k m) ls /\
+                          In (EDispatch k i (c_svc c) (c_meth c) (c_req c)) (events (sproj tr))) \/
+             (exists e, sn = Untouched /\ resolve svcs (mkReq i (c_svc c) (c_meth c) (Valid (c_req c))) = inl e))) /\
+       (forall tg, (count_occ Nat.eq_dec (run_tags (events (cproj tr))) tg <= 1)%nat) /\
+       (quiescent y -> forall t c, In (SCall (LFetch t c)) ls ->
+          count_occ Nat.eq_dec (run_tags (events (cproj tr))) (c_tag c) = (if c_done c then 1 else 0)%nat /\
+          count_occ Nat.eq_dec (del_tags (events (cproj tr))) (c_tag c) = 1%nat)) /\
+      (Forall (frame_ok wire_of) (sent_c tr) /\ Forall (frame_ok wire_of) (sent_s tr)) /\
+      (exists k, forall chunks, concat chunks = stream_of wire_of (sent_c tr) ->
+         let r := C18_Model.codec_feed_all rpcmsg wire_parse C18_RpcInstance.rpctag (C18_Model.codec_init) chunks in
+         snd r = C18_Model.mkD tt [] false false /\
+         taken_s tr = firstn k (labels_of content_of (fst r)) /\
+         map direct_label (c2s y) = skipn k (labels_of content_of (fst r))) /\
+      (exists k, forall chunks, concat chunks = stream_of wire_of (sent_s tr) ->
+         let r := C18_Model.codec_feed_all rpcmsg wire_parse C18_RpcInstance.rpctag (C18_Model.codec_init) chunks in
+         snd r = C18_Model.mkD tt [] false false /\
+         taken_c tr = firstn k (labels_of content_of (fst r)) /\
+         map direct_label (s2c y) = skipn k (labels_of content_of (fst r))).
+Proof. exact end_to_end_over_codec. Qed.
+Print Assumptions C19_end_to_end_over_codec.
+
+(* C19_bidirectional over the codec, DOWNs included.  [bsent w tr] = the frames end w handed to its
+   codec (none once its connection is down), [btaken w tr] = the labels end w's channel took at its
+   BDeliver steps, [binq y w] = the frames still under way to w.  Under [bsys_fits] (every call and
+   every reply at either end makes a frame within kMaxMessageLen): (i)-(iii) of C19_bidirectional;
+   every frame end w ever wrote is [frame_ok]; and for ANY segmentation of the bytes the OTHER end's
+   codec wrote, C18's decoder delivers them without error, the labels end w took being the first k of
+   them and the queue the rest (after end w's DOWN it takes nothing more: the rest is never read). *)
+Theorem C19_bidirectional_over_codec :
+  forall (wire_of : bytes -> bytes) (content_of : bytes -> payload),
+    (forall m, content_of (wire_of m) = Valid m) ->
+    forall oA oB sA sB ls y tr,
+      bexec wire_of content_of (binit oA oB sA sB) ls = Some (y, tr) ->
+      bsys_fits wire_of ls -> (forall w, NoDup (bfetch_tags w ls)) ->
+      (forall w, next_id (core (bend y w)) < 9223372036854775808) ->
+      forall w,
+        ((forall tg sn, In (ERun tg sn) (cevents (bproj w tr)) ->
+            exists t t' c i, In (BCall w (LFetch t c)) ls /\ c_tag c = tg /\ In (EFetch t' i tg) (cevents (bproj w tr)) /\
+              ((exists k m, sn = Parsed m /\ In (BDone (other w) k m) ls /\
+                            In (EDispatch k i (c_svc c) (c_meth c) (c_req c)) (cevents (bproj (other w) tr))) \/
+               (exists e, sn = Untouched /\
+                          resolve (svcs_of sA sB (other w)) (mkReq i (c_svc c) (c_meth c) (Valid (c_req c))) = inl e))) /\
+         (forall tg, (count_occ Nat.eq_dec (run_tags (cevents (bproj w tr))) tg <= 1)%nat) /\
+         (bquiescent y -> forall t c, In (BCall w (LFetch t c)) ls ->
+            count_occ Nat.eq_dec (run_tags (cevents (bproj w tr))) (c_tag c) = (if c_done c then 1 else 0)%nat /\
+            count_occ Nat.eq_dec (del_tags (cevents (bproj w tr))) (c_tag c) = 1%nat)) /\
+        Forall (frame_ok wire_of) (bsent w tr) /\
+        (exists k, forall chunks, concat chunks = stream_of wire_of (bsent (other w) tr) ->
+           let r := C18_Model.codec_feed_all rpcmsg wire_parse C18_RpcInstance.rpctag (C18_Model.codec_init) chunks in
+           snd r = C18_Model.mkD tt [] false false /\
+           btaken w tr = firstn k (labels_of content_of (fst r)) /\
+           map direct_label (binq y w) = skipn k (labels_of content_of (fst r))).
+Proof. exact bidirectional_over_codec. Qed.
+Print Assumptions C19_bidirectional_over_codec.
+
 (* On its own channel: every call ever made is still held by the channel (registered, or fetched
-   and not yet registered) or has completed exactly once. *)
+   and not yet registered) or has completed exactly once.  (Completed = closure run once if there is
+   one, response object deleted once; the latter under the caller obligation of "Tags" above: every
+   call passes its own heap-allocated response object.) *)
 Theorem C19_call_accounting :
   forall svcs ls s tr,
     exec (init svcs) ls = Some (s, tr) -> NoDup (fetch_tags ls) ->
@@ -598,6 +740,23 @@ Example C19_example_over_bytes :
                           [firstn 6 ex_stream; firstn 50 (skipn 6 ex_stream); skipn 56 ex_stream])) = map direct_label ex_frames.
 Proof.
   split; [repeat constructor; vm_compute; try (intro; discriminate); try reflexivity|].
+  split; vm_compute; reflexivity.
+Qed.
+
+(* the hypotheses of the _over_codec theorems are inhabited: the two system histories above are within
+   the codec's limit ([sys_fits] / [bsys_fits] by computation against the regenerated kMaxMessageLen);
+   in the first, quiescent at the end, everything sent has been taken, frame by frame; the sizes of
+   the two frames of C19_example_over_bytes: 4 + 28 and 4 + 22 bytes = the 58 of the stream *)
+Example C19_example_system_fits :
+  sys_fits (fun b => b) ex_sys_hist /\ bsys_fits (fun b => b) ex_bi_hist /\
+  (exists y tr, sys_exec (fun b => b) Valid (sys_init ex_svcs) ex_sys_hist = Some (y, tr) /\
+     length (sent_c tr) = 3%nat /\ length (sent_s tr) = 3%nat /\
+     taken_s tr = map direct_label (sent_c tr) /\ taken_c tr = map direct_label (sent_s tr)) /\
+  request_frame_len [x53] [x45] [x0a] = 28 /\ reply_frame_len [xa1] = 22.
+Proof.
+  split; [intros l Hl; repeat (destruct Hl as [<-|Hl]; [vm_compute; try exact I; intro; discriminate|]); destruct Hl|].
+  split; [intros l Hl; repeat (destruct Hl as [<-|Hl]; [vm_compute; try exact I; intro; discriminate|]); destruct Hl|].
+  split; [eexists; eexists; split; [vm_compute; reflexivity|]; repeat split; vm_compute; reflexivity|].
   split; vm_compute; reflexivity.
 Qed.
 
